@@ -38,7 +38,7 @@ Proof.
   cbv zeta.
   destruct ((e_kind e =? 3) || negb (outer_opens (kc (ens c)) (e_state e))); [reflexivity|].
   destruct (wrong_epoch (kc (ens c)) e).
-  - destruct (is_better (ens c) (e_epoch e) (e_ts e) (e_key e)).
+  - destruct (is_commit_kind e && is_better (ens c) (e_epoch e) (e_ts e) (e_key e)).
     + destruct (find_snap (e_epoch e) (queue (ens c))) as [s|]; [|reflexivity].
       destruct f as [|f']; [reflexivity|].
       intros Hrb. exfalso.
@@ -98,7 +98,7 @@ Proof.
   all: destruct ((e_kind e =? 3) || negb (outer_opens (kc (ens c)) (e_state e))); [exact Hsame|].
   all: destruct (wrong_epoch (kc (ens c)) e);
        [|rewrite (msgs_here_foreign (ens c) e _ m Hne Hm); exact Hsame].
-  all: destruct (is_better (ens c) (e_epoch e) (e_ts e) (e_key e)); [|rewrite msgs_late; exact Hsame].
+  all: destruct (is_commit_kind e && is_better (ens c) (e_epoch e) (e_ts e) (e_key e)); [|rewrite msgs_late; exact Hsame].
   all: destruct (find_snap (e_epoch e) (queue (ens c))) as [s|] eqn:Es; [|exact Hsame].
   - exact Hsame.
   - assert (dget m (msgs (rollback (ens c) (e_epoch e) s)) = Some (snd (inval_m (e_epoch e) (m, mr)))) as Hg'.
@@ -143,7 +143,7 @@ Proof.
   all: cbv zeta.
   all: destruct ((e_kind e =? 3) || negb (outer_opens (kc (ens c)) (e_state e))); [discriminate|].
   all: destruct (wrong_epoch (kc (ens c)) e); [|apply app_here_own_id; exact Hne].
-  all: destruct (is_better (ens c) (e_epoch e) (e_ts e) (e_key e));
+  all: destruct (is_commit_kind e && is_better (ens c) (e_epoch e) (e_ts e) (e_key e));
        [|unfold late; destruct (dget (e_id e) (dedup (ens c))) as [d|]; [destruct (d_state d =? PS_COMMIT)|]; discriminate].
   all: destruct (find_snap (e_epoch e) (queue (ens c))) as [s|] eqn:Es; [|discriminate].
   - discriminate.
